@@ -10,15 +10,21 @@ All theorems are for EVERY consistent state (`Inv`), EVERY step outcome (`WF`: a
 accepted ensembles ≤ n-1, any number of trajectory files, delete_old on/off/all, any queue of
 old paths), EVERY crash point `(k, half)`.
 
-Findings (the model mirrors the code as it is):
-* `write_toml` truncates restart.toml in place — exactly one effect index per step (both
-  sub-states) leaves no restartable state: `crash_in_window_raises`, `crash_restartable_counterexample`;
-  everywhere else the restart starts: `crash_restartable_partial`; with the temp-file + os.replace
-  variant it starts at every crash point: `crash_restartable`.
-* the data row is appended before the restart file is rewritten — a crash in between and a
-  continue gives the replaced path a second row: `continue_rows_unique_counterexample`; outside
-  that window a restart re-establishes the full invariant (`crash_restore_inv_partial`) and rows stay
-  unique for every continuation, including further crashes (`continue_rows_unique_partial`).
+The model mirrors the code as it is NOW (after the fix commits ba0d066, 05f8082, e7b75fb); the
+switches `Variant.asIs` and `cleanOnRestart := false` keep the historical behaviour as a record:
+
+* `write_toml` (temp file + os.replace): the restart starts at EVERY crash point — `crash_restartable`.
+  Historical truncation in place: exactly one effect index per step (both sub-states) left no
+  restartable state — `crash_in_window_raises`, `crash_restartable_counterexample`,
+  `crash_restartable_partial`.
+* the data row still is appended before the restart file is rewritten, but a restart's
+  `clean_data_file` drops rows of still active paths and a torn last row: at EVERY crash point the
+  restored state satisfies the full invariant (`crash_restore_inv`) and rows stay whole, unique and
+  disjoint from the live set for every continuation with arbitrary further crashes + restarts
+  (`continue_rows_unique`).  Historical restart without cleaning: `continue_rows_unique_counterexample`,
+  `crash_restore_inv_partial`, `continue_rows_unique_partial`.
+* delete_old_all removes every leftover entry of `accepted/` before the rmdir, so stale files of an
+  interrupted and redone store no longer break it: `delete_block_rmdir_safe` (+ concrete example).
 -/
 namespace Infretis.C08
 open Infretis.Fs
